@@ -46,37 +46,17 @@ example : getTargetHosts none (.ne (.idx (.var "host") (.lit (.str "name"))) (.l
 
 /-! ## The name index creates what plain evaluation creates
 
-  Full statement (false of the unchanged code, see the two counterexamples):
-    `∀ w rules inv, (indexed w rules inv).Equiv (plain w rules inv)`.
-  Proved with the hypothesis `IndexSafe` for every rule: a rule the recogniser accepts
-    (a) does not name a loop variable `host`/`service` (F-C16a), and
-    (b) has a `for` value of the kind its loop header expects on every target of its type (F-C16b). -/
+  Before commit b11cb6d this held only for rules whose loop variables are not named `host`/`service` (F-C16a)
+  and whose `for` value has the expected kind on every target (F-C16b); since then a rule with `for` is never
+  indexed (applyrule-targeted.cpp:65-70) and the statement holds outright. -/
 
-/-- **indexed_eq_plain** (partial). -/
-theorem indexed_eq_plain_partial (w : World) (rules : Rules) (inv : Inventory)
-    (hsafe : ∀ p ∈ rules, IndexSafe inv p.2) : (indexed w rules inv).Equiv (plain w rules inv) := by
+/-- **indexed_eq_plain.**  For every rule list and inventory the load with the name index is accepted exactly
+    when the load with every filter evaluated is, and creates the same set of objects. -/
+theorem indexed_eq_plain (w : World) (rules : Rules) (inv : Inventory) :
+    (indexed w rules inv).Equiv (plain w rules inv) := by
   apply loadResult_equiv
   intro o ho
-  simp only [indexedOutcomes, plainOutcomes, List.mem_flatMap]
-  constructor
-  · rintro ⟨t, ht, hm⟩; exact ⟨t, ht, (indexedOn_iff_plainOn w hsafe ht o ho).mp hm⟩
-  · rintro ⟨t, ht, hm⟩; exact ⟨t, ht, (indexedOn_iff_plainOn w hsafe ht o ho).mpr hm⟩
-
-/-- rules without `for` (and hence without loop variables) are always safe -/
-theorem indexSafe_of_no_for (inv : Inventory) (r : Rule) (hf : r.fterm = none) (hk : r.fkvar = "") (hv : r.fvvar = "") :
-    IndexSafe inv r := by
-  intro _
-  refine ⟨?_, ?_⟩
-  · cases htg : r.tgt <;> simp [NoShadow, boundNames, hk, hv, htg]
-  · intro t _
-    simp [instances, forVal, hf, instancesOf, hv]
-
-/-- … so for rule lists without `for` the full statement holds outright. -/
-theorem indexed_eq_plain_without_for (w : World) (rules : Rules) (inv : Inventory)
-    (h : ∀ p ∈ rules, p.2.fterm = none ∧ p.2.fkvar = "" ∧ p.2.fvvar = "") :
-    (indexed w rules inv).Equiv (plain w rules inv) :=
-  indexed_eq_plain_partial w rules inv fun p hp =>
-    indexSafe_of_no_for inv p.2 (h p hp).1 (h p hp).2.1 (h p hp).2.2
+  exact indexedOutcomes_iff_plainOutcomes w (fun p _ => indexSafe_all inv p.2) o ho
 
 def cexWorld : World :=
   { globals := fun _ => none, other := fun _ _ _ _ => none, field := fun _ _ => none, nav := fun _ _ => .empty }
@@ -86,41 +66,35 @@ def hostNameIs (n : String) : Expr := .eq (.idx (.var "host") (.lit (.str "name"
 /-- `apply Service "x-" for (host in ["a"]) to Host { assign where host.name == "h0" }` -/
 def cexShadowRule : Rule :=
   { src := .service, tgt := .host, name := "x-", assign := [hostNameIs "h0"], ignore := [],
-    fterm := some fun _ => .arr [.str "a"], fkvar := "host" }
+    loop := some { term := fun _ => .arr [.str "a"], kvar := "host" } }
 
-/-- **F-C16a** — a loop variable named `host`: the index creates `h0!x-a`; plain evaluation reads the loop
-    variable (`"a".name` raises) and the configuration is rejected. -/
-theorem indexed_eq_plain_counterexample_shadow :
-    ¬ (indexed cexWorld [(0, cexShadowRule)] ⟨["h0"], []⟩).Equiv (plain cexWorld [(0, cexShadowRule)] ⟨["h0"], []⟩) := by
-  have h1 : indexed cexWorld [(0, cexShadowRule)] ⟨["h0"], []⟩
-      = .accepted [⟨0, .host "h0", "a", [("host", .str "a")]⟩] := by decide
-  have h2 : plain cexWorld [(0, cexShadowRule)] ⟨["h0"], []⟩ = .rejected := by decide
-  rw [h1, h2]; exact id
+/-- regression for F-C16a: the rule is not indexed any more; both loads read the loop variable (`"a".name`
+    raises) and reject the configuration -/
+example : targetedNames cexShadowRule = none ∧
+    indexed cexWorld [(0, cexShadowRule)] ⟨["h0"], []⟩ = .rejected ∧
+    plain cexWorld [(0, cexShadowRule)] ⟨["h0"], []⟩ = .rejected := by decide
 
 /-- `apply Service "x-" for (k in host.vars.mix) to Host { assign where host.name == "h0" }` where
     `vars.mix` is an array on h0 and a dictionary on h1 -/
 def cexKindRule : Rule :=
   { src := .service, tgt := .host, name := "x-", assign := [hostNameIs "h0"], ignore := [],
-    fterm := some fun t => if t = .host "h0" then .arr [.str "a"] else .dict [("x", .str "a")], fkvar := "k" }
+    loop := some { term := fun t => if t = .host "h0" then .arr [.str "a"] else .dict [("x", .str "a")], kvar := "k" } }
 
-/-- **F-C16b** — a `for` value of the wrong kind on a host the rule does not name: plain evaluation raises
-    ("Array iterator requires value to be an array") on h1, the index never evaluates the rule there. -/
-theorem indexed_eq_plain_counterexample_forkind :
-    ¬ (indexed cexWorld [(0, cexKindRule)] ⟨["h0", "h1"], []⟩).Equiv (plain cexWorld [(0, cexKindRule)] ⟨["h0", "h1"], []⟩) := by
-  have h1 : indexed cexWorld [(0, cexKindRule)] ⟨["h0", "h1"], []⟩
-      = .accepted [⟨0, .host "h0", "a", [("k", .str "a")]⟩] := by decide
-  have h2 : plain cexWorld [(0, cexKindRule)] ⟨["h0", "h1"], []⟩ = .rejected := by decide
-  rw [h1, h2]; exact id
+/-- regression for F-C16b: both loads raise "Array iterator requires value to be an array" on h1 -/
+example : indexed cexWorld [(0, cexKindRule)] ⟨["h0", "h1"], []⟩ = .rejected ∧
+    plain cexWorld [(0, cexKindRule)] ⟨["h0", "h1"], []⟩ = .rejected := by decide
 
-/-- hypotheses satisfiable on a non-trivial state: a recognised `for` rule over two hosts creates objects -/
+/-- not vacuous: a rule without `for` is indexed under the names of its filter and creates its object through
+    the index; the same rule with `for` is evaluated on every host -/
 example :
-    let r : Rule := { src := .service, tgt := .host, name := "x-", assign := [hostNameIs "h0"], ignore := [],
-                      fterm := some fun _ => .arr [.str "a", .str "b"], fkvar := "k" }
-    (targetedNames r).isSome ∧ NoShadow r ∧
-      indexed cexWorld [(0, r)] ⟨["h0", "h1"], []⟩
-        = .accepted [⟨0, .host "h0", "a", [("k", .str "a")]⟩, ⟨0, .host "h0", "b", [("k", .str "b")]⟩] := by
-  intro r
-  exact ⟨by decide, by unfold NoShadow; decide, by decide⟩
+    let r : Rule := { src := .service, tgt := .host, name := "x", assign := [.or (hostNameIs "h0") (hostNameIs "h9")],
+                      ignore := [], loop := none }
+    let rf : Rule := { r with loop := some { term := fun _ => .arr [.str "a", .str "b"], kvar := "k" } }
+    targetedNames r = some [.host "h0", .host "h9"] ∧ targetedNames rf = none ∧
+      indexed cexWorld [(0, r), (1, rf)] ⟨["h0", "h1"], []⟩
+        = .accepted [mkCreated 1 rf (.host "h0") ⟨"a", [("k", .str "a")]⟩, mkCreated 1 rf (.host "h0") ⟨"b", [("k", .str "b")]⟩,
+                     mkCreated 0 r (.host "h0") ⟨"", []⟩] := by
+  decide
 
 /-! ## Plain evaluation creates exactly the matching objects -/
 
@@ -131,7 +105,7 @@ example :
 theorem apply_exactly_matching (w : World) (rules : Rules) (inv : Inventory) (objs : List Created)
     (hacc : plain w rules inv = .accepted objs) (c : Created) :
     c ∈ objs ↔ ∃ p ∈ rules, ∃ t ∈ targets inv p.2.tgt, ∃ is, instances p.2 t = some is ∧ ∃ i ∈ is,
-      c = ⟨p.1, t, i.key, i.binds⟩ ∧ Matches (instEnv w p.2 t i) p.2 := by
+      c = mkCreated p.1 p.2 t i ∧ Matches (instEnv w p.2 t i) p.2 := by
   unfold plain loadResult at hacc
   split at hacc
   · cases hacc
@@ -187,9 +161,9 @@ theorem apply_exactly_matching (w : World) (rules : Rules) (inv : Inventory) (ob
 
 /-- not vacuous: `assign where host.name == "h0" || true; ignore where host.name == "h1"` on two hosts -/
 example :
-    let r : Rule := { src := .notification, tgt := .host, name := "n", fterm := none,
+    let r : Rule := { src := .notification, tgt := .host, name := "n", loop := none,
                       assign := [hostNameIs "h0", .lit (.bool true)], ignore := [hostNameIs "h1"] }
-    plain cexWorld [(7, r)] ⟨["h0", "h1"], []⟩ = .accepted [⟨7, .host "h0", "", []⟩] := by decide
+    plain cexWorld [(7, r)] ⟨["h0", "h1"], []⟩ = .accepted [mkCreated 7 r (.host "h0") ⟨"", []⟩] := by decide
 
 /-! ## Order independence -/
 
@@ -204,51 +178,48 @@ theorem order_independent (w : World) (r₁ r₂ : Rules) (i₁ i₂ : Inventory
 
 /-! ## API queries
 
-  Full statement (false of the unchanged code, see the counterexample):
-    `∀ w fvars ty e inv, ApiEquiv (apiTargets w fvars ty e inv) (apiSlow w fvars ty e inv)`.
-  Proved with the hypothesis that no `filter_vars` key is one of the names the evaluator binds itself
-  (`obj`, `host`, `service`, the navigation fields). As *lists* the two differ: the fast path returns one
-  entry per disjunct (Q-C16b); the property speaks of sets. -/
+  Before commit 77a9c63 this held only when no `filter_vars` key is one of the names the evaluator binds itself
+  (`obj`, `host`, `service`, the navigation fields; F-C16c); since then the fast path is not taken on such a
+  collision (filterutility.cpp:119-141,303).  As *lists* the two still differ: the fast path returns one entry
+  per disjunct (Q-C16b); the property speaks of sets. -/
 
-/-- **api_fast_path_eq_plain** (partial). -/
-theorem api_fast_path_eq_plain_partial (w : World) (fvars : Option (List (String × Val))) (ty : TgtType) (e : Expr)
-    (inv : Inventory) (hd : FvarsDisjoint ty fvars) :
-    ApiEquiv (apiTargets w fvars ty e inv) (apiSlow w fvars ty e inv) := by
+/-- **api_fast_path_eq_plain.**  `GetFilterTargets` returns the same set of objects (or raises alike) whether or
+    not the filter takes the name-index fast path, for every filter, `filter_vars`, type and inventory. -/
+theorem api_fast_path_eq_plain (w : World) (fvars : Option (List (String × Val))) (ty : TgtType) (e : Expr)
+    (inv : Inventory) : ApiEquiv (apiTargets w fvars ty e inv) (apiSlow w fvars ty e inv) := by
   unfold apiTargets
-  cases ty with
-  | host =>
-    simp only
-    split
-    · next names hn =>
-      rw [api_host_case w fvars e inv hd hn]
-      intro t
-      simp only [List.mem_filter, List.contains_eq_mem, decide_eq_true_eq, and_comm]
-    · exact ApiEquiv.refl _
-  | service =>
-    simp only
-    split
-    · next names hn =>
-      rw [api_service_case w fvars e inv hd hn]
-      intro t
-      simp only [List.mem_filter, List.contains_eq_mem, decide_eq_true_eq, and_comm]
-    · exact ApiEquiv.refl _
+  cases hcol : fvarsCollide ty fvars with
+  | true => exact ApiEquiv.refl _
+  | false =>
+    have hd := fvarsDisjoint_of_not_collide hcol
+    simp only [Bool.false_eq_true, if_false]
+    cases ty with
+    | host =>
+      simp only
+      split
+      · next names hn =>
+        rw [api_host_case w fvars e inv hd hn]
+        intro t
+        simp only [List.mem_filter, List.contains_eq_mem, decide_eq_true_eq, and_comm]
+      · exact ApiEquiv.refl _
+    | service =>
+      simp only
+      split
+      · next names hn =>
+        rw [api_service_case w fvars e inv hd hn]
+        intro t
+        simp only [List.mem_filter, List.contains_eq_mem, decide_eq_true_eq, and_comm]
+      · exact ApiEquiv.refl _
 
-/-- **F-C16c** — `filter = host.name == obj`, `filter_vars = { obj = "h0" }`: the fast path reads the constant
-    and returns h0; evaluation sees `obj` bound to the target object and returns nothing. -/
-theorem api_fast_path_counterexample_shadowed_constant :
-    ¬ ApiEquiv (apiTargets cexWorld (some [("obj", .str "h0")]) .host
-                  (.eq (.idx (.var "host") (.lit (.str "name"))) (.var "obj")) ⟨["h0"], []⟩)
-               (apiSlow cexWorld (some [("obj", .str "h0")]) .host
-                  (.eq (.idx (.var "host") (.lit (.str "name"))) (.var "obj")) ⟨["h0"], []⟩) := by
-  have h1 : apiTargets cexWorld (some [("obj", .str "h0")]) .host
-      (.eq (.idx (.var "host") (.lit (.str "name"))) (.var "obj")) ⟨["h0"], []⟩ = some [.host "h0"] := by decide
-  have h2 : apiSlow cexWorld (some [("obj", .str "h0")]) .host
+/-- regression for F-C16c — `filter = host.name == obj`, `filter_vars = { obj = "h0" }`: evaluation sees `obj`
+    bound to the target object and returns nothing; so does `GetFilterTargets` now -/
+example :
+    apiTargets cexWorld (some [("obj", .str "h0")]) .host
+      (.eq (.idx (.var "host") (.lit (.str "name"))) (.var "obj")) ⟨["h0"], []⟩ = some [] ∧
+    apiSlow cexWorld (some [("obj", .str "h0")]) .host
       (.eq (.idx (.var "host") (.lit (.str "name"))) (.var "obj")) ⟨["h0"], []⟩ = some [] := by decide
-  rw [h1, h2]
-  intro h
-  exact absurd ((h (.host "h0")).mp (by simp)) (by simp)
 
-/-- hypotheses satisfiable, with a constant: `host.name == c || host.name == c`, `filter_vars = {c = "h1"}` —
+/-- not vacuous, with a constant: `host.name == c || host.name == c`, `filter_vars = {c = "h1"}` —
     the fast path returns h1 twice (Q-C16b), evaluation once; the same set. -/
 example :
     let e := Expr.or (.eq (.idx (.var "host") (.lit (.str "name"))) (.var "c"))
@@ -256,12 +227,104 @@ example :
     apiTargets cexWorld (some [("c", .str "h1")]) .host e ⟨["h0", "h1"], []⟩ = some [.host "h1", .host "h1"] ∧
     apiSlow cexWorld (some [("c", .str "h1")]) .host e ⟨["h0", "h1"], []⟩ = some [.host "h1"] := by decide
 
+/-! ## The whole load, including the cascade
+
+  Services created by `apply Service` rules are targets of the `to Service` rules (`extend`).  `plainFull` /
+  `indexedFull` are the complete loads. -/
+
+/-- **indexed_eq_plain for whole loads.** -/
+theorem indexed_full_eq_plain_full (w : World) (rules : Rules) (inv : Inventory) :
+    (indexedFull w rules inv).Equiv (plainFull w rules inv) :=
+  indexedFull_equiv_plainFull w rules inv fun p _ => indexSafe_all _ p.2
+
+/-- the services that are targets in the second round: the declared ones and, for every `apply Service` object
+    created on a host in the first round, that host with the object's name -/
+theorem extended_services (inv : Inventory) (os : List Outcome) (p : String × String) :
+    p ∈ (extend inv os).services ↔
+      (p ∈ inv.services ∨ ∃ c, Outcome.create c ∈ os ∧ c.src = .service ∧ p = (targetHostName c.target, c.name)) := by
+  simp only [extend, List.mem_append, mem_createdServices]
+
+/-- **apply_exactly_matching for whole loads**: `apply_exactly_matching` with the extended target set. -/
+theorem apply_exactly_matching_full (w : World) (rules : Rules) (inv : Inventory) (objs : List Created)
+    (hacc : plainFull w rules inv = .accepted objs) (c : Created) :
+    c ∈ objs ↔ ∃ p ∈ rules, ∃ t ∈ targets (extend inv (plainOutcomes w rules inv)) p.2.tgt, ∃ is,
+      instances p.2 t = some is ∧ ∃ i ∈ is, c = mkCreated p.1 p.2 t i ∧ Matches (instEnv w p.2 t i) p.2 :=
+  apply_exactly_matching w rules _ objs hacc c
+
+/-- **order_independent for whole loads.** -/
+theorem order_independent_full (w : World) (r₁ r₂ : Rules) (i₁ i₂ : Inventory) (hr : r₁.Perm r₂)
+    (hh : i₁.hosts.Perm i₂.hosts) (hs : i₁.services.Perm i₂.services) :
+    (plainFull w r₁ i₁).Equiv (plainFull w r₂ i₂) ∧ (indexedFull w r₁ i₁).Equiv (indexedFull w r₂ i₂) := by
+  have hi : InvEquiv i₁ i₂ := ⟨fun _ => hh.mem_iff, fun _ => hs.mem_iff⟩
+  have hrm : ∀ p, p ∈ r₁ ↔ p ∈ r₂ := fun _ => hr.mem_iff
+  constructor
+  · apply loadResult_equiv
+    intro o _
+    refine plainOutcomes_equiv w hrm ?_ o
+    have h0 : ∀ o, o ≠ Outcome.skip → (o ∈ plainOutcomes w r₁ i₁ ↔ o ∈ plainOutcomes w r₂ i₂) :=
+      fun o _ => plainOutcomes_equiv w hrm hi o
+    refine ⟨fun _ => hh.mem_iff, fun s => ?_⟩
+    simp only [extended_services, hs.mem_iff]
+    constructor
+    · rintro (h | ⟨c, hc, hx⟩)
+      · exact Or.inl h
+      · exact Or.inr ⟨c, (h0 _ (by simp)).mp hc, hx⟩
+    · rintro (h | ⟨c, hc, hx⟩)
+      · exact Or.inl h
+      · exact Or.inr ⟨c, (h0 _ (by simp)).mpr hc, hx⟩
+  · apply loadResult_equiv
+    intro o _
+    refine indexedOutcomes_equiv w hrm ?_ o
+    have h0 : ∀ o, o ≠ Outcome.skip → (o ∈ indexedOutcomes w r₁ i₁ ↔ o ∈ indexedOutcomes w r₂ i₂) :=
+      fun o _ => indexedOutcomes_equiv w hrm hi o
+    refine ⟨fun _ => hh.mem_iff, fun s => ?_⟩
+    simp only [extended_services, hs.mem_iff]
+    constructor
+    · rintro (h | ⟨c, hc, hx⟩)
+      · exact Or.inl h
+      · exact Or.inr ⟨c, (h0 _ (by simp)).mp hc, hx⟩
+    · rintro (h | ⟨c, hc, hx⟩)
+      · exact Or.inl h
+      · exact Or.inr ⟨c, (h0 _ (by simp)).mpr hc, hx⟩
+
+/-- the cascade, concretely: `apply Service "s-" for (k in ["a"]) to Host` on h0, and a Notification targeted at
+    the created service `h0!s-a` by name -/
+example :
+    let rs : Rule := { src := .service, tgt := .host, name := "s-", assign := [hostNameIs "h0"], ignore := [],
+                       loop := some { term := fun _ => .arr [.str "a"], kvar := "k" } }
+    let rn : Rule := { src := .notification, tgt := .service, name := "n", loop := none, ignore := [],
+                       assign := [.and (hostNameIs "h0") (.eq (.idx (.var "service") (.lit (.str "name"))) (.lit (.str "s-a")))] }
+    indexedFull cexWorld [(0, rs), (1, rn)] ⟨["h0", "h1"], []⟩
+      = .accepted [mkCreated 0 rs (.host "h0") ⟨"a", [("k", .str "a")]⟩, mkCreated 1 rn (.service "h0" "s-a") ⟨"", []⟩] ∧
+    plainFull cexWorld [(0, rs), (1, rn)] ⟨["h0", "h1"], []⟩
+      = .accepted [mkCreated 0 rs (.host "h0") ⟨"a", [("k", .str "a")]⟩, mkCreated 1 rn (.service "h0" "s-a") ⟨"", []⟩] := by
+  decide
+
+/-! ## The model's whole trace meets the specification
+
+  `modelObs` is what the model says the harness observes of one configuration: as written = `indexedFull`,
+  every filter wrapped = `plainFull`, 16 commit threads = the same. -/
+
+/-- **model_load_meets_spec.**  For every configuration the model's observable trace satisfies the executable
+    specification of the property: fast-path independence, parallel independence, and — wherever the property's
+    reading is defined — exactly the matching objects with the target in scope (whatever cases `silentIf`
+    excludes). -/
+theorem model_load_meets_spec (w : World) (rules : Rules) (inv : Inventory) (silentIf : List ObjObs → Bool) :
+    specLoad w rules inv silentIf (modelObs w rules inv) = none :=
+  model_load_meets_spec_aux w rules inv silentIf fun p _ => indexSafe_all _ p.2
+
+/-- … and the API model satisfies `specApi`. -/
+theorem model_api_meets_spec (w : World) (fvars : Option (List (String × Val))) (ty : TgtType) (e : Expr)
+    (inv : Inventory) :
+    specApi w fvars ty e inv { fast := apiTargets w fvars ty e inv, slow := apiSlow w fvars ty e inv } = none :=
+  model_api_meets_spec_aux w fvars ty e inv (api_fast_path_eq_plain w fvars ty e inv)
+
 /-! ## The specification predicate is not vacuous -/
 
 /-- an object on a host the filter does not name, a missing object, a body that saw another host, and a
     fast-path dependence are each rejected by the spec; the right observation is accepted -/
 example :
-    let r : Rule := { src := .service, tgt := .host, name := "x", fterm := none, assign := [hostNameIs "h0"], ignore := [] }
+    let r : Rule := { src := .service, tgt := .host, name := "x", loop := none, assign := [hostNameIs "h0"], ignore := [] }
     let good : ObjObs := { src := .service, name := "h0!x", k := .empty, v := .empty, hn := some "h0", sn := none }
     let bad : ObjObs := { good with name := "h1!x", hn := some "h1" }
     let inv : Inventory := ⟨["h0", "h1"], []⟩
